@@ -8,6 +8,7 @@ import VaxisModel.Lemmas.Pager
 import VaxisModel.Lemmas.Scrollbar
 import VaxisModel.Lemmas.DynList
 import VaxisModel.Lemmas.DynListInv
+import VaxisModel.Lemmas.DynCompose
 
 namespace VaxisModel.Props.C19
 open VaxisModel VaxisModel.Model
@@ -434,6 +435,54 @@ theorem dyn_cursor_visible (cfg : Cfg) (hgap : 0 ≤ cfg.gap) (hs0 : List Nat) (
   obtain ⟨hs', s1, he, hi, hl⟩ := runH_inv cfg hgap ops hs0 init hlen0 init_inv ho
   rw [hrun'] at he; cases he
   exact dyn_cursor_visible_any_state cfg hs hl s c W H hc hW hH hH1 hi.top_ok hcur hc1
+
+/-- **C19 × C14 — the selected item is what the painter's algorithm shows.**  After any history (gap
+    ≥ 0, items replaced at will), `SetCursor(c)` + `Draw` into a `W × H` viewport: take the returned
+    children as the surface tree `dynTree` (the list's surface of size `W × H` with own buffer
+    `pbuf`, child `j` a leaf at column `col` — the gutter offset — and its row, `lf j` = what widget
+    `j` drew, a buffer of its width × its height).  Then at EVERY position of the selected child's
+    rectangle that lies inside the viewport and a `sw × sh` screen, the top layer of C14's painter's
+    algorithm (`Spec.Surface.layers`/`topAt`, which `Props.C14.run_frame_paints` proves to be the
+    screen content after a frame of `App.Run`) is the selected widget's own cell — it is not covered
+    by a sibling or by the list; and the selected child is visible (`Visible`), so such rows exist. -/
+theorem dyn_selected_on_top (cfg : Cfg) (hgap : 0 ≤ cfg.gap) (hs0 : List Nat) (hlen0 : hs0.length < 2 ^ 63)
+    (ops : List HOp) (ho : ∀ op ∈ ops, HOpOk op) (hs : List Nat) (s : St)
+    (hrun : runH genFacts cfg hs0 init ops = .ok (hs, s))
+    (c W H hc : Nat) (hW : W ≠ 65535) (hH : H ≠ 65535) (hH1 : 1 ≤ H)
+    (hcur : hs[c]? = some hc) (hc1 : 1 ≤ hc)
+    (sw sh : Nat) (pbuf : List Model.Window.Cell) (col : Int) (lf : Nat → Lemmas.DynCompose.Leaf)
+    (hbuf : (lf c).buf.length = (lf c).w * hc) :
+    ∃ s' cs, draw genFacts cfg hs (setCursor s c) W H = .ok (s', cs) ∧
+      ∃ ch ∈ cs, ch.idx = c ∧ ch.height = hc ∧ Visible H ch ∧
+        ∀ (x y : Int), 0 ≤ x → x < sw → x < W → col ≤ x → x < col + (lf c).w →
+          0 ≤ y → y < sh → y < H → ch.row ≤ y → y < ch.row + (hc : Int) →
+          ∃ cell, (lf c).buf[(y - ch.row).toNat * (lf c).w + (x - col).toNat]? = some cell ∧
+            Spec.Surface.topAt (Spec.Surface.layers true (Lemmas.DynCompose.dynTree W H pbuf col lf cs) 0 0
+              { x0 := 0, y0 := 0, x1 := sw, y1 := sh }) x y = some cell := by
+  obtain ⟨s', cs, hd, ch, hmem, hidx, hh, hvis⟩ :=
+    dyn_cursor_visible cfg hgap hs0 hlen0 ops ho hs s hrun c W H hc hW hH hH1 hcur hc1
+  have hU : (setCursor s c).top < U := by
+    have hrun' := hrun
+    rw [dyn_repairs_present] at hrun'
+    obtain ⟨_, s1, he, hi, _⟩ := runH_inv cfg hgap ops hs0 init hlen0 init_inv ho
+    rw [hrun'] at he; cases he
+    have hcn : c < hs.length := getElem?_lt hcur
+    have := (ensureScroll_inv s c hi.top_ok (by omega)).top_ok
+    unfold U; unfold setCursor; omega
+  have hlay := (dyn_layout cfg hs (setCursor s c) W H s' cs hU hd).1
+  obtain ⟨k, hk⟩ := List.getElem?_of_mem hmem
+  refine ⟨s', cs, hd, ch, hmem, hidx, hh, hvis, ?_⟩
+  intro x y hx0 hxs hxW hxc hxw hy0 hys hyH hyr hyb
+  have := Lemmas.DynCompose.child_on_top W H sw sh pbuf col lf cfg.gap hgap cs hlay k ch hk
+    (by rw [hidx, hh]; exact hbuf) x y hx0 hxs hxW hxc (by rw [hidx]; exact hxw) hy0 hys hyH hyr (by rw [hh]; exact hyb)
+  rw [hidx] at this
+  exact this
+
+/-- Non-vacuity of `dyn_selected_on_top`: two items of height 1 with gap 1 in a 4 × 3 viewport,
+    the second selected: its cell (grapheme 7) is on top at (0, 2). -/
+example : Spec.Surface.topAt (Spec.Surface.layers true
+      (Lemmas.DynCompose.dynTree 4 3 [] 0 (fun j => ⟨1, [⟨5 + 2 * j, 1, 0⟩]⟩) [⟨0, 0, 1⟩, ⟨1, 2, 1⟩]) 0 0
+      { x0 := 0, y0 := 0, x1 := 10, y1 := 10 }) 0 2 = some ⟨7, 1, 0⟩ := by decide
 
 /-- The same for `NextItem` / `PrevItem` from any state (when they move the cursor, i.e. return a
     command; the newly selected item has height ≥ 1). -/
